@@ -20,6 +20,10 @@ pub fn mapping_m1() -> Vec<Line> {
         // a class without sourceFile header: resolving frames keep the file of the input frame
         class("com.example.NoFile", "a.c"),
         method(Some((1, 3)), None, "run", "", Orig::SE(10, 12), "r"),
+        // a kept class: class and method names are not renamed, lines and file are
+        class("k.Kept", "k.Kept"),
+        Line::SourceFile("K.kt"),
+        method(Some((1, 3)), None, "run", "", Orig::SE(10, 12), "run"),
     ]
 }
 /// knows none of the names the traces use
@@ -201,7 +205,7 @@ pub fn model_text<'a>(model: &'a Model, text: &'a str) -> String {
     out
 }
 
-pub const SHAPES: [&str; 40] = [
+pub const SHAPES: [&str; 41] = [
     "a.E: boom",
     "a.E",
     "x.Unknown: msg",
@@ -220,6 +224,8 @@ pub const SHAPES: [&str; 40] = [
     "    at a.c.r(G.java:2)",
     // two colons inside the parentheses: "2:5" is not a line number, so this is not a frame line
     "    at a.b.m(F.java:2:5)",
+    // a frame of a kept class (names unchanged, line and file remapped)
+    "\tat k.Kept.run(F.java:2)",
     // a known throwable without message and with trailing blanks (trimmed like every line); the same behind the prefix
     "a.E  ",
     "Caused by: a.E\t",
@@ -449,7 +455,7 @@ pub fn run_c07(tier: Tier) -> i32 {
         prop: "C07",
         tier,
         level: "model_checking",
-        rule: format!("every text of 1..={} lines over 40 line shapes (plus long lines and run-length texts: 99..1001 unresolved frames followed by a resolving one; plus 5 long lines of 1.1 kB / 70 kB placed first, between and after <= 2 other shapes) (throwables known/unknown with/without message, message containing ': ' and frame-like text, frames space/tab/trailing-blank indented that resolve to 2 / 1 / 0 frames, unknown method, unknown class, line outside every range, Native Method, Unknown Source, two frames differing only in their file, 'Caused by:' known/unknown/indented, '... n more', blank, 'at x(y:1)', non-ASCII) x 3 terminator policies (LF, CRLF, no final newline) x 4 mappings (empty; inline group + sourceFile; one that knows none of the names; the second one with R8's indented rewriteFrame / synthesized / outline comments below its member lines) x {{mapper (for every second mapping the one built with the parameter index), cache}}; oracle = text model R12 with an independent line classifier. states = (text, mapping); distinct = distinct expected outputs; non-trivial = outputs that differ from the normalised input", depth),
+        rule: format!("every text of 1..={} lines over 41 line shapes (plus long lines and run-length texts: 99..1001 unresolved frames followed by a resolving one; plus 5 long lines of 1.1 kB / 70 kB placed first, between and after <= 2 other shapes) (throwables known/unknown with/without message, message containing ': ' and frame-like text, frames space/tab/trailing-blank indented that resolve to 2 / 1 / 0 frames, unknown method, unknown class, line outside every range, Native Method, Unknown Source, two frames differing only in their file, 'Caused by:' known/unknown/indented, '... n more', blank, 'at x(y:1)', non-ASCII) x 3 terminator policies (LF, CRLF, no final newline) x 4 mappings (empty; inline group + sourceFile; one that knows none of the names; the second one with R8's indented rewriteFrame / synthesized / outline comments below its member lines) x {{mapper (for every second mapping the one built with the parameter index), cache}}; oracle = text model R12 with an independent line classifier. states = (text, mapping); distinct = distinct expected outputs; non-trivial = outputs that differ from the normalised input", depth),
         bounds: json!({"lines": depth, "shapes": SHAPES.to_vec(), "terminators": ["LF","CRLF","LF without final newline"], "mappings": mappings().iter().map(|(l, m)| json!({"label":l,"text":esc(&print_file(m, Term::Lf))})).collect::<Vec<_>>()}),
         assumptions: vec!["lines are split like str::lines (LF, CR dropped only directly before LF)".into()],
         trusted_base: vec!["rustc/std (str::trim, str::parse::<usize>)".into(), "text model + line classifier in pgmc/src/props/e3.rs".into(), "reference model pgmc/src/model.rs".into()],
@@ -474,7 +480,7 @@ pub fn recheck_text(case: &Value) -> Vec<String> {
 // ---------------------------------------------------------------------------------------------
 // C08: typed traces (R13) and agreement with the text API
 
-const THROWABLES: [Option<(&str, Option<&str>)>; 6] = [None, Some(("a.E", Some("boom"))), Some(("a.E", None)), Some(("x.Unknown", Some("msg: with colon"))), Some(("x.Unknown", None)), Some(("a.E", Some("open: /x: denied")))];
+const THROWABLES: [Option<(&str, Option<&str>)>; 7] = [None, Some(("a.E", Some("boom"))), Some(("a.E", None)), Some(("x.Unknown", Some("msg: with colon"))), Some(("x.Unknown", None)), Some(("a.E", Some("open: /x: denied"))), Some(("x.Unknown", Some("a.E")))];
 const FRAMES: [(&str, &str, usize, Option<&str>); 8] = [
     ("a.b", "m", 2, Some("F.java")),
     ("a.b", "zz", 2, Some("F.java")),
@@ -887,7 +893,7 @@ pub fn recheck_typed(case: &Value) -> Vec<String> {
 // C17: print -> parse round trip
 
 const RT_CLASSES: [&str; 6] = ["a.b.Err", "x.Y$Z", "\u{e9}.\u{dc}", "Caused", "Process", "FATAL"];
-const RT_MESSAGES: [Option<&str>; 18] = [
+const RT_MESSAGES: [Option<&str>; 21] = [
     None,
     Some("m"),
     Some("x: y"),
@@ -909,10 +915,14 @@ const RT_MESSAGES: [Option<&str>; 18] = [
     Some("x::"),
     Some(":"),
     Some("open failed (errno:2)"),
+    // words that mean something to a Java reader
+    Some("null"),
+    Some("true"),
+    Some("a.b.Err"),
 ];
 const RT_FCLASSES: [&str; 2] = ["a.b.C", "x.Y$1"];
 const RT_METHODS: [&str; 5] = ["m", "<init>", "\u{e9}", "r: m", "m n"];
-const RT_FILES: [&str; 6] = ["F.java", "Unknown Source", "<unknown>", "F(1).kt", "R (c) [2].java", "F) ~[x"];
+const RT_FILES: [&str; 10] = ["F.java", "Unknown Source", "<unknown>", "F(1).kt", "R (c) [2].java", "F) ~[x", "r8-map-id-48ffd94", "SourceFile", "Native Method", "R8$$SyntheticClass"];
 const RT_LINES: [usize; 3] = [0, 1, usize::MAX];
 
 fn rt_frames() -> Vec<(String, String, usize, Option<String>)> {
